@@ -16,7 +16,7 @@ RULE = ("(1) species: all 118 symbols bare (natural and most-abundant), every ta
         "group | juxtaposition with optional blanks | explicit ' + ' | trailing explicit ' * n'), nesting <= 5 quick / "
         "<= 10 thorough, biased to 'multiplied group directly followed by a group', rendered by the Lean model, both "
         "isotope modes; (3) preprocess scanners vs the real regexes on rendered and mutated / random strings; "
-        "(4) Substance + Substance and Substance * n; corpus first. non-trivial = formula with a group and a repeated "
+        "(4) Substance + Substance and Substance * n; (5) histories: a parsed substance grown with add(), later parses of formulas with the same species, + Element of a present / new species, sums, products, add() on a sum — every live object re-read after every step; corpus first. non-trivial = formula with a group and a repeated "
         "species, or species with isotope/charge; distinct = the rendered text + mode")
 ASSUMPTIONS = [
     "documented notation = species (symbol, optional {A}, {+q}, {A+q}; D, T bare or with a full {A+q}; [p] [n] [e]), integer counts >= 1, "
@@ -36,34 +36,14 @@ close = C11.close
 uf = C11.unfrac
 
 
-# ------------------------------------------------------------------ table oracle (Python side of the specification)
+# ------------------------------------------------------------------ live table: symbol / isotope lists for the generators only
+# (the numerical specification is computed by the Lean driver: Model/C10Spec.lean)
 class Table:
     def __init__(self):
         rows, me, nuc = c10_tables.extract()
         self.rows = {s: (z, isos) for s, z, isos in rows}
         self.order = [s for s, _, _ in rows]
-        self.me = Fraction(me)
-        self.nuc = {c: Fraction(v) for c, v in nuc.items()}
         self.natural = [s for s in self.order if sum(i[2] for i in self.rows[s][1]) > 0]
-
-    def species(self, sym, iso, q, natural):
-        """(mass, Z, N, e) demanded by the property for element `sym`, isotope `iso` (None: unspecified), charge number q"""
-        z, isos = self.rows[sym]
-        if iso is not None:
-            m = [Fraction(i[1]) for i in isos if i[0] == iso][0]
-            return (m + q * self.me, Fraction(z), Fraction(iso - z), Fraction(z + q))
-        if natural:
-            w = [Fraction(i[2]) for i in isos]
-            sw = sum(w)
-            mass = sum(wi * (Fraction(i[1]) + q * self.me) for wi, i in zip(w, isos)) / sw
-            n = sum(wi * (i[0] - z) for wi, i in zip(w, isos)) / sw
-            return (mass, Fraction(z), n, Fraction(z + q))
-        best = 0
-        for k, i in enumerate(isos):
-            if i[2] > isos[best][2]:
-                best = k
-        a = isos[best][0]
-        return (Fraction(isos[best][1]) + q * self.me, Fraction(z), Fraction(a - z), Fraction(z + q))
 
 
 def sp_text(sym, iso, q):
@@ -75,15 +55,10 @@ def sp_text(sym, iso, q):
     return "%s{%s}" % (sym, s)
 
 
-def spec_of_text(tbl, txt, natural):
-    """species text generated by sp_text/nucleons/D,T -> (mass, Z, N, e) of the specification"""
+def desc_of_text(txt):
+    """species text of the documented notation -> descriptor for the Lean specification"""
     if txt in ("[p]", "[n]", "[e]"):
-        c = txt[1]
-        return (tbl.nuc[c], Fraction(c == 'p'), Fraction(c == 'n'), Fraction(c == 'e'))
-    if txt == "D":
-        return tbl.species("H", 2, 0, natural)
-    if txt == "T":
-        return tbl.species("H", 3, 0, natural)
+        return ["nucleon", txt[1]]
     sym, _, suf = txt.partition("{")
     iso, q = None, 0
     if suf:
@@ -98,7 +73,17 @@ def spec_of_text(tbl, txt, natural):
             q = (1 if suf[i] == '+' else -1) * (int(d) if d else 1)
     if sym in ("D", "T"):
         sym, iso = "H", (2 if sym == "D" else 3)
-    return tbl.species(sym, iso, q, natural)
+    return ["iso", sym, iso, q] if iso is not None else ["unspec", sym, q]
+
+
+def species_in(ast):
+    if ast[0] == "sp":
+        return {ast[1]}
+    out = set()
+    for x in ast[1:]:
+        if isinstance(x, list):
+            out |= species_in(x)
+    return out
 
 
 # ------------------------------------------------------------------ real code
@@ -260,18 +245,23 @@ def element_stream(ctx, tbl, n_random):
         bad.append(mutate(ctx.rng, gen_species(ctx.rng, tbl, True)))
     for s in bad:
         cases.append((s, ctx.rng.random() < 0.5, False))
-    res = ctx.driver.ask_many([{"k": "element", "s": s, "natural": nat} for s, nat, _ in cases])
+    res = ctx.driver.ask_many([{"k": "element", "s": s, "natural": nat, "sp": desc_of_text(s) if judged else None}
+                               for s, nat, judged in cases])
     for (s, nat, judged), r in zip(cases, res):
         imp = impl_element(s, nat)
         ctx.case(["element", s, nat], judged and "{" in s, {"element": s, "natural": nat} if "{" in s and "+" in s else None)
         ctx.count("element.%s" % ("judged" if judged else "malformed"))
-        m = r.get("ok", "driver-error")
-        if judged:
+        m = r.get("ok", {}).get("model", "driver-error")
+        sp = r.get("ok", {}).get("spec")
+        if judged and not isinstance(sp, dict):
+            ctx.disagreement("element-spec", {"s": s, "natural": nat}, "the Lean specification is undefined for an in-domain species: %s" % (sp,))
+        if judged and isinstance(sp, dict):
+            ctx.count("element.judged_by_lean_spec")
             if imp == "err":
                 ctx.violation("species:error", "Element(%r, natural=%s) raises" % (s, nat), {"stream": "element", "s": s, "natural": nat})
                 continue
-            sp = spec_of_text(tbl, s, nat)
-            for name, v in zip(("mass", "Z", "N", "e"), sp):
+            for name in ("mass", "Z", "N", "e"):
+                v = uf(sp[name])
                 if not close(imp[name], v):
                     ctx.violation("species:%s" % name,
                                   "Element(%r, natural=%s).%s = %r, table says %r" % (s, nat, name, imp[name], float(v)),
@@ -303,23 +293,40 @@ def judge_formula(ctx, tbl, ast, natural, r, report=True):
             viol = ("formula:counts:%s" % shape_of(txt), "Substance(%r) has counts %s, the formula expands to %s" % (txt, got, exp))
         else:
             # per-species data against the table, totals = count-weighted sums of the reported per-species data
-            tot = {c: Fraction(0) for c in ("mass", "Z", "N", "e")}
-            for (k, cnt), row in zip(imp["components"], imp["rows"]):
-                sp = spec_of_text(tbl, k, natural)
-                for name, v in zip(("mass", "Z", "N", "e"), sp):
-                    if viol is None and not close(row[name], v):
-                        viol = ("formula:species:%s" % name, "in Substance(%r) species %s has %s = %r, table says %r" % (txt, k, name, row[name], float(v)))
-                    tot[name] += exp[k] * v
-                if viol is None and not close(row["count"], exp[k]):
-                    viol = ("formula:count_column", "data_components count of %s in %r is %r, expected %r" % (k, txt, row["count"], exp[k]))
-            for name in ("mass", "Z", "N", "e"):
-                if viol is None and not close(imp["sum"][name], tot[name]):
-                    viol = ("formula:totals:%s" % name, "Substance(%r) total %s = %r, count-weighted sum of the species data = %r" %
-                            (txt, name, imp["sum"][name], float(tot[name])))
+            spec = r["spec"]
+            if not isinstance(spec, dict):
+                return None, ("formula-spec", "the Lean specification is undefined for %r" % txt, replay)
+            if isinstance(spec, dict):
+                ctx.count("formula.judged_by_lean_spec")
+                srows = {row["expr"]: row for row in spec["rows"]}
+                for (k, cnt), row in zip(imp["components"], imp["rows"]):
+                    for name in ("mass", "Z", "N", "e"):
+                        v = uf(srows[k]["data"][name])
+                        if viol is None and not close(row[name], v):
+                            viol = ("formula:species:%s" % name, "in Substance(%r) species %s has %s = %r, table says %r" % (txt, k, name, row[name], float(v)))
+                    if viol is None and not close(row["count"], exp[k]):
+                        viol = ("formula:count_column", "data_components count of %s in %r is %r, expected %r" % (k, txt, row["count"], exp[k]))
+                for name in ("mass", "Z", "N", "e"):
+                    tot = uf(spec["sum"][name])
+                    if viol is None and not close(imp["sum"][name], tot):
+                        viol = ("formula:totals:%s" % name, "Substance(%r) total %s = %r, count-weighted sum of the species data = %r" %
+                                (txt, name, imp["sum"][name], float(tot)))
+    # the same formula in the explicit documented notation (C10_counts_explicit_text_partial)
+    if viol is None and r.get("wf") and (len(txt) % 5) < 2:
+        ctx.count("formula.explicit_text_checked")
+        imp2 = impl_substance(r["explicit"], natural, tables=False)
+        got2 = None if imp2 == "err" else {k: v for k, v in imp2["components"]}
+        if got2 is None or set(got2) != set(exp) or any(not close(got2[k], exp[k]) for k in exp):
+            viol = ("formula:counts:explicit-notation", "Substance(%r) (explicit notation of %r) has counts %s, the formula expands to %s" %
+                    (r["explicit"], txt, got2, exp))
     # correspondence with the model pipeline and with the AST-level evaluation
     m = r["model"]
     dis = None
-    if [[k, uf(v)] for k, v in r["evalF"]] != [[k, Fraction(n)] for k, n in r["expand"]]:
+    if r.get("wf") and not r.get("preprocess_ok"):
+        dis = ("preprocess-statement", "C10_preprocess_statement fails in the model: preprocess(%r) != %r" % (txt, r.get("explicit")))
+    elif r.get("wf") and impl_preprocess(txt) != r.get("explicit"):
+        dis = ("preprocess-explicit", "real preprocess(%r) = %r, explicit text of the formula %r" % (txt, impl_preprocess(txt), r.get("explicit")))
+    elif [[k, uf(v)] for k, v in r["evalF"]] != [[k, Fraction(n)] for k, n in r["expand"]]:
         dis = ("evalF", "AST evaluation %s differs from expansion %s" % (r["evalF"], r["expand"]))
     elif (imp == "err") != (m == "err"):
         dis = ("formula", "impl %s, model %s" % ("raises" if imp == "err" else imp["components"], json.dumps(m)[:200]))
@@ -330,6 +337,10 @@ def judge_formula(ctx, tbl, ast, natural, r, report=True):
         elif imp["components"] and any(not close(imp["sum"][c], uf(m["sum"][c])) for c in ("mass", "Z", "N", "e")):
             dis = ("formula", "impl sum %s, model %s" % (imp["sum"], {c: float(uf(m["sum"][c])) for c in m["sum"]}))
     return (viol + (replay,) if viol else None), (dis + (replay,) if dis else None)
+
+
+def formula_request(ast, natural):
+    return {"k": "formula", "ast": ast, "natural": natural, "species": {t: desc_of_text(t) for t in species_in(ast)}}
 
 
 def shape_of(txt):
@@ -356,7 +367,7 @@ def formula_stream(ctx, tbl, count, maxdepth):
         natural = ctx.rng.random() < 0.5
         d = ctx.rng.randint(0, maxdepth)
         cases.append((gen_term(ctx.rng, tbl, natural, d, []), natural))
-    res = ctx.driver.ask_many([{"k": "formula", "ast": a, "natural": n} for a, n in cases])
+    res = ctx.driver.ask_many([formula_request(a, n) for a, n in cases])
     texts = []
     for (ast, natural), r in zip(cases, res):
         viol, dis = judge_formula(ctx, tbl, ast, natural, r)
@@ -367,6 +378,7 @@ def formula_stream(ctx, tbl, count, maxdepth):
         ctx.case(["formula", txt, natural], nontriv, {"formula": txt, "natural": natural} if nontriv else None)
         ctx.count("formula.depth.%d" % depth_of(ast))
         ctx.count("formula.shape.%s" % shape_of(txt))
+        ctx.count("formula.wf.%s" % r.get("ok", {}).get("wf"))
         if viol:
             ctx.violation(viol[0], viol[1], viol[2])
         if dis:
@@ -440,6 +452,76 @@ def addmul_stream(ctx, tbl, n):
             ctx.violation("addmul:mul", "Substance(%r) * %r has counts %s, expected %s" % (a, k, smul, wantm), {"stream": "addmul", "a": a, "k": k})
 
 
+def counts_of(sub):
+    return {k: float(v.proportion) for k, v in sub.components.items()}
+
+
+def same_counts(a, b):
+    return set(a) == set(b) and all(close(a[k], b[k]) for k in b)
+
+
+def history_steps(sym, other, natural, k1, k2):
+    """(step name, driver op, action on the list of real objects) — own scope, no late binding"""
+    from scinumtools.materials import Substance, Element
+    f2 = "%s2%s" % (sym, other)
+    one = C11.frac
+    return [
+        ("parse", ["new", [[sym, one(1)]]], lambda L: L.append(Substance(sym, natural=natural))),
+        ("add", ["add", 0, sym, one(k1)], lambda L: L[0].add(sym, k1)),
+        ("add", ["add", 0, other, one(k2)], lambda L: L[0].add(other, k2)),
+        ("later-parse", ["new", [[sym, one(2)], [other, one(1)]]], lambda L: L.append(Substance(f2, natural=natural))),
+        ("add-element", ["pluselem", 1, sym, one(k1)], lambda L: L.append(L[1] + Element(sym, k1, natural=natural))),
+        ("add-element", ["pluselem", 1, "Xe", one(k2)], lambda L: L.append(L[1] + Element("Xe", k2, natural=natural))),
+        ("sum", ["plus", 0, 1], lambda L: L.append(L[0] + L[1])),
+        ("product", ["mul", 4, one(k2)], lambda L: L.append(L[4] * k2)),
+        ("add-after-sum", ["add", 4, other, one(1)], lambda L: L[4].add(other, 1)),
+        ("reparse", ["new", [[sym, one(2)], [other, one(1)]]], lambda L: L.append(Substance(f2, natural=natural))),
+    ]
+
+
+def history_stream(ctx, tbl, n):
+    """objects are built step by step and combined; every live object is re-read after every step and compared
+    with the value semantics computed by the Lean driver (operands are never changed, earlier work never
+    influences a later parse)"""
+    from scinumtools.materials import Substance, Element
+    common = ["H", "O", "C", "N", "Na", "Cl", "Ca", "Fe", "S", "Cu", "H{1}", "O{16}", "C{12}", "D", "[p]"]
+    plans = []
+    for i in range(n):
+        natural = ctx.rng.random() < 0.5
+        sym = common[i % len(common)] if i < 2 * len(common) else gen_species(ctx.rng, tbl, natural)
+        other = ctx.rng.choice([c for c in common if c != sym])
+        k1, k2 = ctx.rng.choice([1, 2, 3]), ctx.rng.choice([1, 2, 5])
+        steps = history_steps(sym, other, natural, k1, k2)
+        plans.append((sym, other, natural, k1, k2, steps))
+    res = ctx.driver.ask_many([{"k": "ops", "ops": [st[1] for st in pl[5]]} for pl in plans])
+    for (sym, other, natural, k1, k2, steps), r in zip(plans, res):
+        ctx.case(["history", sym, other, natural, k1, k2], True)
+        ctx.count("history")
+        if "ok" not in r:
+            ctx.disagreement("history", {"sym": sym, "other": other}, "driver error %s" % r)
+            continue
+        live = []
+        try:
+            for (name, op, act), snap in zip(steps, r["ok"]):
+                act(live)
+                bad = None
+                for idx, (obj, want) in enumerate(zip(live, snap)):
+                    want = {k: uf(v) for k, v in want}
+                    got = counts_of(obj)
+                    if not same_counts(got, want):
+                        bad = (idx, got, {k: float(v) for k, v in want.items()})
+                        break
+                if bad:
+                    ctx.violation("history:%s" % name, "after step %s %s object #%d has counts %s, expected %s (species %s, %s; natural=%s)" %
+                                  (name, op, bad[0], bad[1], bad[2], sym, other, natural),
+                                  {"stream": "history", "sym": sym, "other": other, "natural": natural, "step": name,
+                                   "ops": [st[1] for st in steps]})
+                    break
+        except Exception as e:  # noqa
+            ctx.violation("history:error", "building %s / %s2%s step by step raises %r" % (sym, sym, other, e),
+                          {"stream": "history", "sym": sym, "other": other, "natural": natural})
+
+
 def corpus_asts():
     out = []
     for f in sorted((VERIF / "corpus" / "C10").glob("*.json")):
@@ -451,6 +533,7 @@ def correspond(ctx: Ctx):
     thorough = ctx.tier == "thorough"
     tbl = Table()
     element_stream(ctx, tbl, 600 if thorough else 120)
+    history_stream(ctx, tbl, 150 if thorough else 40)     # before the formulas: leaked state would show there too
     texts = formula_stream(ctx, tbl, 3000 if thorough else 330, 10 if thorough else 5)
     preprocess_stream(ctx, texts, 3000 if thorough else 400)
     malformed_stream(ctx, texts, 600 if thorough else 120)
@@ -461,7 +544,7 @@ def replay(ctx, payload):
     rp = payload.get("replay", payload)
     tbl = Table()
     if rp.get("stream") == "formula":
-        r = ctx.driver.ask({"k": "formula", "ast": rp["ast"], "natural": rp["natural"]})
+        r = ctx.driver.ask(formula_request(rp["ast"], rp["natural"]))
         viol, dis = judge_formula(ctx, tbl, rp["ast"], rp["natural"], r)
         print("formula:", rp.get("text"))
         if viol:
@@ -471,10 +554,11 @@ def replay(ctx, payload):
         return 1 if viol or dis else 0
     if rp.get("stream") == "element":
         imp = impl_element(rp["s"], rp["natural"])
+        r = ctx.driver.ask({"k": "element", "s": rp["s"], "natural": rp["natural"], "sp": desc_of_text(rp["s"])})["ok"]
+        sp = r["spec"]
         print("Element(%r, natural=%s) -> %s ; specification %s" % (rp["s"], rp["natural"], imp,
-              [float(v) for v in spec_of_text(tbl, rp["s"], rp["natural"])]))
-        sp = spec_of_text(tbl, rp["s"], rp["natural"])
-        bad = imp == "err" or any(not close(imp[n], v) for n, v in zip(("mass", "Z", "N", "e"), sp))
+              {k: float(uf(v)) for k, v in sp.items()} if isinstance(sp, dict) else sp))
+        bad = isinstance(sp, dict) and (imp == "err" or any(not close(imp[n], uf(sp[n])) for n in ("mass", "Z", "N", "e")))
         if bad:
             print("VIOLATION property=C10 species data differ")
         return 1 if bad else 0
